@@ -38,6 +38,13 @@ SPEC = {
             "index is truncated to 4 bits ([a,16+x]~[a+1,x], [a,16+x,c]~[a+1,x,c], [a,b,16+y]~[a,b+1,y]), with single-qubit gates in between; observed "
             "through Gate::apply on 3 basis vectors (every 4th case: apply_mat on a 2^n x 1 matrix): the image must be the basis state given by plain "
             "bit manipulation of the index (sub-gates on their local qubits, in order) - request `basis`, (A) and (B). "
+            "'history' stream: 24 (thorough 120) Composite OBJECTS on 2 / 3 qubits built step by step (4-6 add_gate calls, mostly multi-qubit sub-gates in "
+            "random operand orders, some nested terms) and USED after every add_gate (some also before the first): matrix(), Gate::apply on a state vector "
+            "and apply_mat row-major / column-major, at two state sizes (own width and one qubit more); a clone taken mid-way AFTER use and extended "
+            "differently, used after each of its own steps; finally the used body extended without a use, then wrapped in a Loop, placed in a wider "
+            "Composite on a random operand order, and extended and used once more. Requests are the ordinary matrix / applymat requests for the term "
+            "spelling the sub-gates added SO FAR (names inc<case>s<step>, cl.., lb.., ho..), answers come from the long-lived object: (A) vs model, "
+            "(B) vs the ordered product of the documented unitaries of the sub-gates added so far. "
             "Non-trivial = a matrix, applymat or basis request that returned; distinct = distinct request.",
 }
 
